@@ -732,6 +732,12 @@ impl Session {
             Err(_) => return,
         };
 
+        // Second connection from the same address would replace the first one's entry, while
+        // its task is still alive
+        if self.peers.contains_key(&addr) {
+            return;
+        }
+
         let mut peer_handler = PeerHandler::new(
             addr.clone(),
             self.own_id,
